@@ -13,6 +13,14 @@ def run(ctx):
         cov.update(h3_jobs.h3_services_job(ctx))
     if only in ("", "endpoint") and hasattr(h3_jobs, "h3_endpoint_job"):
         cov.update(h3_jobs.h3_endpoint_job(ctx))
+    if only in ("", "fault"):
+        cov.update(h3_jobs.h3_fault_job(ctx))
+    if only in ("", "demux"):
+        t = ctx.tlc("MCDemuxTable", "MCDemuxTable.qprotos.cfg", workers=4, timeout=900, heap="8g", coverage=False, name="MCDemuxTable.h3dev")
+        ctx.spec_must_hold(t)
+        q = h3_jobs.h3_demux_job(ctx, "qprotos", t["out"])
+        cov["h3_demux"] = q
+        os.remove(t["out"])
     cov.setdefault("states", cov.get("h3_states", 0))
     cov.setdefault("transitions", cov.get("h3_transitions", 0))
     cov.setdefault("traces_validated_against_impl", cov.get("h3_evaluations", 0))
